@@ -16,6 +16,10 @@
 (***************************************************************************)
 EXTENDS SpectrumOps
 
+\* TLC builds [k \in S |-> e] lazily and re-evaluates e at every application; Force evaluates the
+\* entries once (Rat!RForce is the identity as far as the meaning is concerned)
+Force(f) == RForce(f)
+
 (***************************************************************************)
 (* Grid helpers (prefix PG_: private copies, to be unified with Grid.tla)  *)
 (***************************************************************************)
@@ -25,16 +29,16 @@ PG_Dx(g, i)  == RSub(g[i + 2], g[i + 1])                   \* spacing between 0-
 \* trapezoid weight of 0-based point i: half the distance between its neighbours (one-sided at the ends)
 PG_W(g, i)   == RHalf(RAdd(IF i > 0 THEN PG_Dx(g, i - 1) ELSE "0",
                            IF i < Len(g) - 1 THEN PG_Dx(g, i) ELSE "0"))
-PG_Weights(g) == [v \in 1..Len(g) |-> PG_W(g, v - 1)]
+PG_Weights(g) == Force([v \in 1..Len(g) |-> PG_W(g, v - 1)])
 
 \* index arithmetic with the strides computed once per array
-PStrides(sh)   == [j \in 1..Len(sh) |-> Stride(sh, j)]
+PStrides(sh)   == Force([j \in 1..Len(sh) |-> Stride(sh, j)])
 PUnflat(sh, st, k) == [j \in 1..Len(sh) |-> ((k - 1) \div st[j]) % sh[j]]
 PFlat(sh, ix)  == LET RECURSIVE go(_, _)
                       go(j, acc) == IF j > Len(sh) THEN acc + 1 ELSE go(j + 1, acc * sh[j] + ix[j])
                   IN go(1, 0)
 PhiAt(phi, ix)  == phi.d[PFlat(phi.sh, ix)]
-PhiMk(sh, D(_)) == LET st == PStrides(sh) IN [sh |-> sh, d |-> [k \in 1..Size(sh) |-> D(PUnflat(sh, st, k))]]
+PhiMk(sh, D(_)) == LET st == PStrides(sh) IN [sh |-> sh, d |-> Force([k \in 1..Size(sh) |-> D(PUnflat(sh, st, k))])]
 PhiWellFormed(phi, gs) == /\ Len(phi.d) = Size(phi.sh) /\ Len(gs) = Len(phi.sh)
                           /\ \A k \in 1..Len(gs) : Len(gs[k]) = phi.sh[k] /\ PG_IsGrid(gs[k])
 
@@ -46,11 +50,11 @@ PG_WSum(phi, wt, a) ==
         sh2   == RemoveAt(phi.sh, a)
         base(k2) == ((k2 - 1) \div inner) * n * inner + ((k2 - 1) % inner) + 1
     IN  [sh |-> sh2,
-         d  |-> [k2 \in 1..Size(sh2) |-> RSum([v \in 1..n |-> RMul(wt[v], phi.d[base(k2) + (v - 1) * inner])])]]
+         d  |-> Force([k2 \in 1..Size(sh2) |-> RSum([v \in 1..n |-> RMul(wt[v], phi.d[base(k2) + (v - 1) * inner])])])]
 \* trapezoid integral over the population on axis a, which lives on grid g   (Numerics.trapz)
 PG_Trapz(phi, g, a)   == PG_WSum(phi, PG_Weights(g), a)
 \* first moment  int x phi dx  along axis a
-PG_Moment1(phi, g, a) == PG_WSum(phi, [v \in 1..Len(g) |-> RMul(PG_W(g, v - 1), g[v])], a)
+PG_Moment1(phi, g, a) == PG_WSum(phi, Force([v \in 1..Len(g) |-> RMul(PG_W(g, v - 1), g[v])]), a)
 
 (***************************************************************************)
 (* Deposition of a frequency z onto the grid g of a new axis               *)
@@ -96,13 +100,13 @@ MixFreq(props, gs, ix) == RSum([k \in 1..Len(props) |-> RMul(props[k], gs[k][ix[
 PhiAdmixNew(phi, gs, props, gnew) ==
     LET n   == Len(gnew)
         st  == PStrides(phi.sh)
-        dep == [j \in 1..Size(phi.sh) |->
-                  IF phi.d[j] = "0" THEN NoDeposit ELSE PhiDeposit(MixFreq(props, gs, PUnflat(phi.sh, st, j)), gnew)]
+        dep == Force([j \in 1..Size(phi.sh) |->
+                  IF phi.d[j] = "0" THEN NoDeposit ELSE PhiDeposit(MixFreq(props, gs, PUnflat(phi.sh, st, j)), gnew)])
     IN  [sh |-> Append(phi.sh, n),
-         d  |-> [k2 \in 1..(Size(phi.sh) * n) |->
+         d  |-> Force([k2 \in 1..(Size(phi.sh) * n) |->
                    LET j == ((k2 - 1) \div n) + 1
                        k == (k2 - 1) % n
-                   IN  IF phi.d[j] = "0" THEN "0" ELSE RMul(phi.d[j], DepositAt(dep[j], k))]]
+                   IN  IF phi.d[j] = "0" THEN "0" ELSE RMul(phi.d[j], DepositAt(dep[j], k))])]
 
 \* N-D split: the new population is a copy of population k
 PhiSplit(phi, gs, k, gnew) == PhiAdmixNew(phi, gs, UnitVec(Len(gs), k), gnew)
@@ -111,10 +115,10 @@ PhiSplit(phi, gs, k, gnew) == PhiAdmixNew(phi, gs, UnitVec(Len(gs), k), gnew)
 PhiSplit1D(phi, g) ==
     LET n == Len(g) IN
     [sh |-> <<n, n>>,
-     d  |-> [k2 \in 1..(n * n) |->
+     d  |-> Force([k2 \in 1..(n * n) |->
                LET i == (k2 - 1) \div n
                    j == (k2 - 1) % n
-               IN  IF i = j /\ i > 0 /\ i < n - 1 THEN RDiv(phi.d[i + 1], PG_W(g, i)) ELSE "0"]]
+               IN  IF i = j /\ i > 0 /\ i < n - 1 THEN RDiv(phi.d[i + 1], PG_W(g, i)) ELSE "0"])]
 
 (***************************************************************************)
 (* Removing, filtering, reordering                                         *)
@@ -134,7 +138,7 @@ PhiReorder(phi, perm) ==
         st2 == PStrides(sh2)
         sto == PStrides(phi.sh)
         old(k) == LET ix == PUnflat(sh2, st2, k) IN 1 + ISum([j \in 1..Len(perm) |-> ix[j] * sto[perm[j]]])
-    IN  [sh |-> sh2, d |-> [k \in 1..Size(sh2) |-> phi.d[old(k)]]]
+    IN  [sh |-> sh2, d |-> Force([k \in 1..Size(sh2) |-> phi.d[old(k)]])]
 ReorderSeq(q, perm) == [j \in 1..Len(perm) |-> q[perm[j]]]
 \* the permutation that moves the last of P axes to position a
 MoveLastTo(P, a) == [j \in 1..P |-> IF j < a THEN j ELSE IF j = a THEN P ELSE j - 1]
